@@ -370,6 +370,7 @@ impl Response<'_> {
             | Self::ReadHoldingRegisters(words)
             | Self::ReadWriteMultipleRegisters(words) => 2 + words.len() * 2,
             Self::Custom(_, data) => 1 + data.len(),
+            #[cfg(feature = "rtu")]
             Self::ReadExceptionStatus(_) => 2,
             #[cfg(feature = "rtu")]
             _ => unimplemented!(), // TODO
